@@ -36,6 +36,8 @@ def replay(path):
 
 
 def extra(chk, info, res):
+    from checks import decisions_common as _dc
+    _dc.tie(chk, ['swim_timed', 'winter_swim'])
     from checks import guards_common
     guards_common.correspondence(chk, ['filtration_allow_swim', 'filtration_is_wintering'])
     from checks import winter_common
